@@ -3,7 +3,7 @@
     reads the conventional document of a conformant value back as that value. *)
 From Coq Require Import ZArith List Bool Lia Arith ZifyBool.
 From SpyneV Require Import Base.Prelude Base.Digits Base.Ext Wire.Utf8 Wire.Decimal Wire.Dict.
-From SpyneV Require Import Gen.DictDoc C02.GenProofs C02.Spec C02.Utf8Proofs C02.Lists C02.EncProofs.
+From SpyneV Require Import Gen.DictDoc C02.GenProofs C02.Spec C02.Utf8Proofs C02.Lists C02.EncProofs C02.LeafProofs.
 Import ListNotations.
 Open Scope Z_scope.
 
@@ -229,11 +229,11 @@ Section Dec.
   Notation fdr k := (fdv_with c ldec (d2o_gen c U ldec k)).
 
   Lemma fdv_nonnull rec nillable t j :
-    (forall k, t <> DPrim k) -> jv_is_null j = false ->
+    (match t with DPrim _ | DPrimE _ => False | _ => True end) -> jv_is_null j = false ->
     fdv_with c ldec rec nillable t j
     = (do r <- rec t j; if c_soft c && negb nillable && is_none r then VFault else Ok r).
   Proof.
-    intros Ht Hj. destruct t as [k| |]; [exfalso; eapply Ht; reflexivity| |];
+    intros Ht Hj. destruct t as [k|k| |]; [destruct Ht|destruct Ht| |];
       destruct j; try discriminate; reflexivity.
   Qed.
 
@@ -295,8 +295,9 @@ Section Dec.
     intros IH Hd Hk Hm Hnone. unfold mdec_ok. destruct (is_none x) eqn:Hx.
     - apply is_none_true in Hx. subst x. destruct (Hnone eq_refl) as [Hmul Hal]. rewrite Hmul.
       cbn [senc vnorm].
-      unfold fdv_with. destruct (df_ty f) as [kd| |].
+      unfold fdv_with. destruct (df_ty f) as [kd|kd| |].
       + apply Hnull, Hal.
+      + cbv beta iota. apply Hnull, Hal.
       + change null_member_is_none with true. cbn [bind is_none].
         destruct Hal as [->| ->]; rewrite ?andb_false_r; reflexivity.
       + change null_member_is_none with true. cbn [bind is_none].
@@ -325,11 +326,17 @@ Section Dec.
   Proof.
     intros IH x t nillable fuel Hd Hf Hc. destruct x as [|l|d fs|xs|j]; try discriminate.
     - (* a leaf *)
-      cbn [conf negb andb] in Hc. destruct t as [k| |]; try discriminate.
-      cbn [senc vnorm]. unfold fdv_with. apply Hleaf, Hc.
+      cbn [conf negb andb] in Hc. destruct t as [k|k| |]; try discriminate.
+      + cbn [senc vnorm]. unfold fdv_with. apply Hleaf, Hc.
+      + (* empty_is_none: the conventional form of a non-empty value is not the empty text *)
+        apply andb_true_iff in Hc as [Hc He]. apply negb_true_iff in He.
+        cbn [senc vnorm]. unfold fdv_with.
+        pose proof (sleaf_nonempty c st k l Hc He) as Hne.
+        destruct (sleaf c st k l) as [| | | |[|x0 s0]|[|x0 b0]| |] eqn:E; try discriminate Hne;
+          rewrite <- E; apply Hleaf, Hc.
     - (* an object *)
       pose proof Hc as Hc0. rewrite conf_obj in Hc. cbn [negb andb] in Hc.
-      destruct t as [k|c0|e]; try discriminate.
+      destruct t as [k|k|c0|e]; try discriminate.
       apply andb_true_iff in Hc as [Hcls Hm].
       destruct (dflat U d) as [ffs|] eqn:Hdf; [|discriminate].
       pose proof (wf_cls _ _ _ Hwf Hdf) as Hw. unfold cls_wf in Hw. rewrite Hdf in Hw.
@@ -337,7 +344,7 @@ Section Dec.
       apply andb_true_iff in Hw as [Hw Hcn]. apply andb_true_iff in Hw as [Hnd Hfo].
       assert (Hn1 : (1 <= n)%nat) by (cbn [vdepth] in Hd; lia).
       destruct fuel as [|k]; [lia|].
-      rewrite fdv_nonnull; [|intros k0; discriminate|eapply conf_nonnull; [exact Hwf|exact Hc0]].
+      rewrite fdv_nonnull; [|exact I|eapply conf_nonnull; [exact Hwf|exact Hc0]].
       rewrite d2o_ref by (eapply conf_nonnull; [exact Hwf|exact Hc0]).
       rewrite senc_obj, Hdf, Hn. rewrite (unwrap_spec c0 d _ cname ffs Hdf Hn Hcn Hcls).
       cbn [bind]. rewrite Hdf.
@@ -391,10 +398,10 @@ Section Dec.
         * intros f y _ Hk0. unfold keepd in Hk0. apply negb_false_iff in Hk0.
           apply andb_true_iff in Hk0 as [H1 _]. apply is_none_true in H1. exact H1.
     - (* a list *)
-      destruct t as [k|c0|e]; try discriminate.
+      destruct t as [k|k|c0|e]; try discriminate.
       assert (Hn1 : (1 <= n)%nat) by (cbn [vdepth] in Hd; lia).
       destruct fuel as [|k]; [lia|].
-      rewrite senc_arr. rewrite fdv_nonnull; [|intros k0; discriminate|reflexivity].
+      rewrite senc_arr. rewrite fdv_nonnull; [|exact I|reflexivity].
       rewrite d2o_arr by reflexivity. cbn [iter_doc]. rewrite mapM_map.
       rewrite conf_arr in Hc.
       rewrite (mapM_ok _ vnorm).
@@ -459,7 +466,7 @@ Section Dec.
   Proof.
     intros Hc Hf. pose proof (dec_all (vdepth (DObj d fs)) (DObj d fs) (DRef c0) true fuel
                                       (le_n _) Hf Hc) as H.
-    rewrite fdv_nonnull in H; [|intros k0; discriminate|eapply conf_nonnull; [exact Hwf|exact Hc]].
+    rewrite fdv_nonnull in H; [|exact I|eapply conf_nonnull; [exact Hwf|exact Hc]].
     destruct (rdr fuel (DRef c0) (senc' false (DRef c0) (DObj d fs))) as [r| |e]; cbn [bind] in H;
       try discriminate.
     cbn [negb] in H. rewrite andb_false_r in H. exact H.
